@@ -147,7 +147,13 @@ def impl(case):
     base = tempfile.mkdtemp(prefix='clastic-c14-')
     try:
         files, secrets = build_tree(base, case['tree'])
+        late = case.get('late_root') and len(case['tree']['roots']) > 1
+        if late:
+            # the last search directory (an uploads / release directory) does not exist yet when the application is built
+            os.rename(os.path.join(base, case['tree']['roots'][-1]), os.path.join(base, 'not-yet'))
         app, prefix = make_app(case, base)
+        if late:
+            os.rename(os.path.join(base, 'not-yet'), os.path.join(base, case['tree']['roots'][-1]))
         out = {'base': base, 'roots': [os.path.join(base, r) for r in case['tree']['roots']],
                'files': sorted(list(files) + list(secrets)), 'requests': []}
         for rq in case['requests']:
@@ -343,6 +349,11 @@ def gen_case(rng, tier):
             path = '/' + '/'.join(rng.choice(segpool) for _ in range(rng.choice([1, 2, 3, 4])))
         reqs.append({'path': path, 'ims': rng.choice([None, None, None, 'before', 'at', 'after']),
                      'fault': rng.choice(FAULTS), 'errno': rng.choice(ERRNOS)})
+    # climbs and absolute paths whose dots and slashes are still percent-encoded after the server's own decoding
+    for sec in tree['secrets']:
+        for form in ('/%2e%2e/' + sec, '/%2e%2e%2f' + sec, '/sub/%2e%2e/%2e%2e/' + sec, '/%2E%2E/' + sec, '/..%2f' + sec,
+                     '/%2f@BASE@%2f' + sec.replace('/', '%2f'), '/%252e%252e/' + sec):
+            reqs.append({'path': form, 'ims': None, 'fault': None, 'errno': 'EIO'})
     # overlapping static applications: every fault at every call while the first one serves a file it has
     if mount['kind'] == 'overlap':
         for rel in [f[1] for f in tree['files'] if f[0] == 0][:3]:
@@ -364,7 +375,7 @@ def gen_case(rng, tier):
         for rq in reqs:
             if rq['ims'] == 'at':
                 rq['ims'] = 'echo'        # 'the file's own date' is what the server says it is
-    return {'tree': tree, 'mount': mount, 'requests': reqs}
+    return {'tree': tree, 'mount': mount, 'requests': reqs, 'late_root': rng.random() < 0.3}
 
 
 def shrink(case):
